@@ -38,6 +38,37 @@ Theorem C34_delete_fires_once : forall f ctx d t w d' log n tb,
 Proof. exact exec_delete_fires_once. Qed.
 Print Assumptions C34_delete_fires_once.
 
+(** INSERT ... SELECT through the normal path (not SELECT * from a compatible table) fires like INSERT ... VALUES, over the
+    source rows in the order the SELECT delivers them *)
+Theorem C34_insert_select_fires_once : forall f ctx d t src star dst s d' log n vrows,
+  exec (S f) ctx d (SInsertSel t src star) = (d', log, Ok n) ->
+  get_table d t = Some dst -> get_table d src = Some s -> star && bulk_eligible dst s = false ->
+  validate_rows d dst ctx (map (map ELit) (select_order (tb_rows s))) 0 [] = inr vrows ->
+  log = spec_insert ctx (d_trigs d) t vrows /\ n = length vrows.
+Proof. exact exec_insert_select_fires_once. Qed.
+Print Assumptions C34_insert_select_fires_once.
+
+(** the images: INSERT row triggers see no OLD and as NEW a row the statement appended; DELETE row triggers see no NEW
+    and as OLD a stored, selected row, and afterwards exactly the unselected rows remain (side conditions as in C11) *)
+Theorem C34_insert_images : forall f ctx d t tb rows d' log n vrows,
+  exec (S f) ctx d (SInsert t true rows) = (d', log, Ok n) -> frame_on f t ->
+  get_table d t = Some tb -> validate_rows d tb ctx rows 0 [] = inr vrows ->
+  exists tb', get_table d' t = Some tb' /\ tb_rows tb' = tb_rows tb ++ vrows /\
+    forall fi, In fi log -> t_gran (f_trig fi) = GRow ->
+      f_old fi = None /\ exists r, f_new fi = Some r /\ In r vrows /\ In r (tb_rows tb').
+Proof. exact exec_insert_images. Qed.
+Print Assumptions C34_insert_images.
+
+Theorem C34_delete_images : forall f ctx d t w d' log n tb,
+  exec (S f) ctx d (SDelete t w) = (d', log, Ok n) -> frame_on f t ->
+  wf d -> get_table d t = Some tb -> references t tb = [] ->
+  exists tb', get_table d' t = Some tb'
+    /\ tb_rows tb' = map snd (filter (fun ir => negb (selected ctx w ir)) (indexed 0 (tb_rows tb)))
+    /\ forall fi, In fi log -> t_gran (f_trig fi) = GRow ->
+         f_new fi = None /\ exists i r, f_old fi = Some r /\ nth_error (tb_rows tb) i = Some r /\ selected ctx w (i, r) = true.
+Proof. exact exec_delete_images. Qed.
+Print Assumptions C34_delete_images.
+
 (** OLD and NEW are the row's pre- and post-image: for a successful UPDATE whose trigger bodies leave the table alone,
     every row-level firing saw as OLD the row stored at some position before the statement and as NEW the row stored
     at that position afterwards *)
@@ -150,9 +181,11 @@ Theorem C34_failing_trigger_aborts_refuted : exists d st, wf d /\ changed_after_
 Proof. exact known_insert_after_row_trigger. Qed.
 Print Assumptions C34_failing_trigger_aborts_refuted.
 
-(** the recursion guard admits exactly [guard_levels] (= 16, re-read from the source) nested firings *)
+(** the recursion guard admits exactly [guard_levels] nested firings (the constant is re-read from the source: 16) *)
 Theorem C34_recursion_guard_boundary :
-  (let '(d', _, o) := step (Witness2.d_rec 16) Witness2.ins1 in (o, length (child_rows d' 0))) = (Ok 1, 16%nat)
-  /\ (let '(d', _, o) := step (Witness2.d_rec 17) Witness2.ins1 in (is_none (match o with Ok _ => None | Err _ _ _ => Some tt end), length (child_rows d' 0))) = (false, 0%nat).
+  (let '(d', _, o) := step (Witness2.d_rec (Z.of_nat guard_levels)) Witness2.ins1 in (o, length (child_rows d' 0)))
+    = (Ok 1, guard_levels)
+  /\ (let '(d', _, o) := step (Witness2.d_rec (Z.of_nat guard_levels + 1)) Witness2.ins1 in
+      (is_none (match o with Ok _ => None | Err _ _ _ => Some tt end), length (child_rows d' 0))) = (false, 0%nat).
 Proof. exact recursion_guard_boundary. Qed.
 Print Assumptions C34_recursion_guard_boundary.
